@@ -1,0 +1,74 @@
+//go:build verif
+
+package service
+
+import (
+	"sync/atomic"
+	"time"
+)
+
+// VerifHook, when installed, is called at every linearization point with an opaque connection
+// identity (nil for the session manager and API callers), the point's name and cheap scalars.
+// It may block: a blocking hook doubles as a scheduler gate.
+type VerifHook func(conn any, point string, args []any)
+
+var verifHook atomic.Pointer[VerifHook]
+
+func VerifSetHook(h VerifHook) {
+	if h == nil {
+		verifHook.Store(nil)
+		return
+	}
+	verifHook.Store(&h)
+}
+
+func verifAt(c *connection, point string, args ...any) {
+	if h := verifHook.Load(); h != nil {
+		var id any
+		if c != nil {
+			id = c
+		}
+		(*h)(id, point, args)
+	}
+}
+
+// VerifExtractor exposes a connection's private frame extractor (packageParse) so that exact
+// read-sized chunks can be fed to it and its abstract state observed.
+type VerifExtractor struct{ p *packageParse }
+
+func VerifNewExtractor() *VerifExtractor { return &VerifExtractor{p: newPackageParse()} }
+
+// Feed is exactly what connection.reader does with the bytes of one Read.
+func (e *VerifExtractor) Feed(chunk []byte) ([]*Message, error) { return e.p.parse(chunk) }
+
+func (e *VerifExtractor) HistoryLen() int { return len(e.p.historyData) }
+
+// Pending reports, per message ID with a transfer in progress, the announced total and which
+// package numbers (1-based) have been stored.
+func (e *VerifExtractor) Pending() map[uint16][]bool {
+	out := map[uint16][]bool{}
+	for id, slots := range e.p.subcontractingRecord {
+		have := make([]bool, len(slots))
+		for i, s := range slots {
+			have[i] = len(s) != 0
+		}
+		out[id] = have
+	}
+	return out
+}
+
+// Age moves every transfer's timestamps back by d: logical time for the 5 s / 60 s rules.
+func (e *VerifExtractor) Age(d time.Duration) {
+	for _, v := range e.p.timeoutRecord {
+		v.createTime = v.createTime.Add(-d)
+		v.updateTime = v.updateTime.Add(-d)
+	}
+}
+
+// VerifConnKey is the registry key a connection obtained ("" before join).
+func VerifConnKey(conn any) string {
+	if c, ok := conn.(*connection); ok {
+		return c.key
+	}
+	return ""
+}
